@@ -155,7 +155,7 @@ func (in *Interp) undo() {
 func (in *Interp) RunPath(fn *ssa.Function, item workItem) (sum *PathSummary) {
 	in.resetPath(item)
 	sum = &PathSummary{}
-	main := &Thread{id: 0, name: "main", resume: make(chan struct{}), state: tsRunnable, vc: vclock{0: 1}, lastLog: -1}
+	main := &Thread{id: 0, name: "main", resume: make(chan struct{}), state: tsRunnable, vc: vclock{0: 1}, wvc: vclock{0: 1}, held: map[Ptr]int{}, lastLog: -1}
 	in.threads = []*Thread{main}
 	go in.threadBody(main, func() { in.callFn(fn, nil, nil, nil, nil) })
 
